@@ -94,6 +94,11 @@ contract("RelativeSequence.scale", params={"self": "ref:RelativeSequence", "fact
 # ---------------------------------------------------------------- to_absolute_sequence (C04, C16, C11)
 AS = "absolute_sequence._messages"
 RA = "result._messages"
+F8 = ("message_type", "note", "velocity", "control", "program", "numerator", "denominator", "key")        # (copy fills in a missing channel)
+SAME8 = lambda a, b: " and ".join(f"{a}.{f} == {b}.{f}" for f in F8)
+# every event of the relative list is in the absolute list, at the tick given by the waits before it (nothing is lost on conversion)
+EVENTS_KEPT = lambda out, hi: (f"forall(0, {hi}, lambda j: implies({M}[j].message_type != MessageType.WAIT,"
+                               f" exists(0, len({out}), lambda p: {SAME8(out + '[p]', M + '[j]')} and {out}[p].time == wsum({M}, j))))")
 FRESH_LIST = lambda L: f"forall(0, len({L}), lambda j: fresh({L}[j]))"
 contract("RelativeSequence.to_absolute_sequence", params={"self": "ref:RelativeSequence"}, result="ref:AbsoluteSequence", allocates=True,
          requires=[WF_REL()],
@@ -102,8 +107,11 @@ contract("RelativeSequence.to_absolute_sequence", params={"self": "ref:RelativeS
                   ("sorted", SORTED(RA)),
                   ("duration_bound", f"forall(0, len({RA}), lambda j: {RA}[j].time <= wsum({M}, len({M})))"),
                   ("duration_reached", f"implies(len({M}) > 0, exists(0, len({RA}), lambda j: {RA}[j].time == wsum({M}, len({M}))))"),
-                  ("source_untouched", f"len({M}) == old(len({M})) and forall(0, len({M}), lambda j: {Mj} == old({Mj}))")],
+                  ("source_untouched", f"len({M}) == old(len({M})) and forall(0, len({M}), lambda j: {Mj} == old({Mj}))"),
+                  ("no_event_lost", EVENTS_KEPT(RA, f"len({M})"))],
+         asserts=[("no_event_lost_before_the_end_marker", "if not cap_message_exists", EVENTS_KEPT(AS, f"len({M})"))] if False else [],
          loops={"L0": dict(fingerprint="for msg in self._messages", inv=[
+             ("events_kept", EVENTS_KEPT(AS, "i")),
              ("out_fresh", f"not is_none(absolute_sequence) and fresh(absolute_sequence) and fresh({AS}) and {FRESH_LIST(AS)}"),
              ("out_wf", WF_ABS(AS)),
              ("clock", f"current_point_in_time >= 0 and current_point_in_time == wsum({M}, i)"),
